@@ -597,7 +597,8 @@ Definition step_checks (cfg : config) (ms : mstate) (o : op) (outs : list out) (
       [ ck "C20.only_controlling_with_feature_renominates"
            (match outs_wire outs with [] => true | _ => false end
             && snap_eqb prev sn
-            && ret_is outs (fun r => match r with RErrNotControlling | RErrRenominationOff => true | _ => false end)) ]
+            && ret_is outs (fun r => match r with RErrNotControlling | RErrRenominationOff => true
+                                           | RErrClosed => sn_closed prev | _ => false end)) ]
     | _ => []
     end in
   (* C03 on every emitted request *)
